@@ -105,6 +105,15 @@ HOSTILE.append((["#define E(fmt, ...) f(fmt, ## __VA_ARGS__)", "#define THIRD(a,
 # string and character constants that spell punctuation are ordinary argument tokens
 HOSTILE.append((["#define F(x) [x]", "#define G(x,y) x|y", "#define S(x) #x", "#define T(x) S(x)", "#define V(...) #__VA_ARGS__", "#define W(...) V(__VA_ARGS__)"],
                 "F(\",\") F(\")\") F(\"(\") F(',') F(')') F('(') G(\",\",1) G(\")\", \"(\") S(\",\") S(',') W(V(,)) T(V(,)) T(S(\")\")) F \"(\" 1"))
+# identifiers with letters outside ASCII, as macro names, parameters and paste operands
+HOSTILE.append((["#define gr\u00f6\u00dfe 4", "#define CARR\u00c9(\u03c0) ((\u03c0)*(\u03c0))", "#define COLLER(a,b) a##b", "#define CHA\u00ceNE(x) #x"],
+                "CARR\u00c9(gr\u00f6\u00dfe) COLLER(x\u00e9, 1) gr\u00f6\u00dfe CHA\u00ceNE(\u00e9t\u00e9 gr\u00f6\u00dfe) COLLER(gr\u00f6, \u00dfe)"))
+# character constants with an encoding prefix keep it through arguments, # and macro bodies
+HOSTILE.append((["#define STR(x) #x", "#define XSTR(x) STR(x)", "#define ID(x) x", "#define WIDE L'a'"],
+                "STR(L'a') ID(ID(u8'z')) XSTR(WIDE) ID(U'x') STR(u'y') L'a'"))
+# constants in a replacement list that spell an operator of the preprocessor or a parameter are just constants
+HOSTILE.append((["#define ISHASH(c) ((c)=='#')", "#define F(x) ('x' + x)", "#define S \"##\"", "#define G(a) \"a\" a", "#define H(a) '#' a \"#a\""],
+                "ISHASH(35) F(1) S G(2) H(3)"))
 # GNU extension: the comma is dropped when the variable argument is absent altogether
 HOSTILE.append((["#define E(fmt, ...) f(fmt, ## __VA_ARGS__)"], "E(1) E(x) end"))
 
@@ -115,6 +124,8 @@ ARITH = [
     (["#define IS(x) defined(x)", "#define Y"], ["IS(Y) + 1", "defined(Y) + defined Y + defined(NOPE)"]),
     (["#define F(x) x", "#define G F"], ["G(3)", "F(G)(4)", "G (5) + G(1)"]),
     (["#define THIRD(a, b, c, ...) c", "#define PICK(x, ...) THIRD(x , ## __VA_ARGS__, 7, 9)"], ["PICK(1,)", "PICK(1,2)", "PICK(1,2,3)"]),
+    (["#define ISHASH(c) ((c)=='#')", "#define F(x) ('x' + x)"], ["ISHASH(35)", "ISHASH(36)", "F(1) - 120"]),
+    (["#define gr\u00f6\u00dfe 4", "#define CARR\u00c9(\u03c0) ((\u03c0)*(\u03c0))"], ["CARR\u00c9(gr\u00f6\u00dfe) - 9", "gr\u00f6\u00dfe"]),
 ]
 KS = [0, 1, 2, 3, 4, 5, 6, 7, 9, 12, 21, -1]
 
@@ -487,6 +498,14 @@ def classify(drv, defines, text, work):
             return "variadic-stringify-loses-space-before-comma"
     if re.search(r"__VA_ARGS__\s*##|##\s*__VA_ARGS__|\w+\.\.\.\)[^\n]*##", bodies) and "..." in bodies:
         return "paste-adjacent-to-va-args-with-several-arguments"
+    if st == "ok" and re.search(r"\b(L|u8|u|U)'", bodies + "\n" + text):
+        # identical once every prefixed character constant of gcc's output is split into prefix + constant
+        split = []
+        for k_, x_ in want:
+            mm = re.match(r"(L|u8|u|U)('.*)$", x_) if k_ == "chr" else None
+            split += [("id", mm.group(1)), ("chr", mm.group(2))] if mm else [(k_, x_)]
+        if split == list(val) and val != want:
+            return "prefixed-character-constant-lexed-as-identifier-plus-constant"
     if st == "ok" and re.search(r"#\s*\w+", bodies):
         # the token sequences agree, and so do the strings produced by # once blanks are ignored: only the white
         # space # records between tokens that came out of another expansion differs
